@@ -373,7 +373,9 @@ func setPath(root any, p jpath, val any) (any, bool) {
 	return root, false
 }
 
-var c05Replacements = []any{1.0, -1.5, "x", "", true, nil, []any{}, map[string]any{}, []any{[]any{1.0}}, map[string]any{"a": map[string]any{}}, "nope", 1e30, []any{nil}, deleteMarker{}}
+var c05Replacements = []any{1.0, -1.5, "x", "", true, nil, []any{}, map[string]any{}, []any{[]any{1.0}}, map[string]any{"a": map[string]any{}}, "nope", 1e30, []any{nil}, deleteMarker{},
+	// long values (refusals echo the offending value): multi-byte runes and plain ASCII
+	strings.Repeat("\u00e9", 40), strings.Repeat("x", 300)}
 
 func c05EntriesFor(base string) []string {
 	switch base {
@@ -644,7 +646,7 @@ func init() {
 	_ = sort.Strings
 	Register(&Prop{
 		ID: "C05",
-		Rule: "Engine A, all choices Full. Four generators, each exhaustive within its bound, against a soft and a struct-backed schema holding all 28 kinds and 9 entry points (UnmarshalDocument/Resource/PartialResource/Collection/Identifier/Identifiers, NewRequest with POST/PATCH/GET): (a) ALL byte strings of length <= 4 (thorough 6) over the 13-symbol alphabet { } [ ] \" : , \\ n 1 a space 0xFF; (b) every truncation point of 8 valid base payloads; (c) in every base payload every value position replaced by each of 14 deviations (wrong JSON kinds, nested values, huge number, unknown type, deletion): all single replacements, all double replacements for the resource/identifiers bases (all bases in thorough); (d) nesting ladder 1..20000 at 5 positions; plus ~90 hand-written payloads (duplicate keys, included:[null], unknown/missing types, non-canonical values) and the full 28 kinds x 16 JSON values matrix. plus every history of 4 (thorough 5) AddType/RemoveType/lookup steps over three type names followed by unmarshaling an identifier and a resource of each name. Oracle: no panic; exactly one of (result, error); every returned resource's type is in the schema, every attribute holds exactly the declared Go type (or nil for nullable), to-one string, to-many []string. Non-trivial = a payload accepted by some entry point, or a deviating/hand-written payload",
+		Rule: "Engine A, all choices Full. Four generators, each exhaustive within its bound, against a soft and a struct-backed schema holding all 28 kinds and 9 entry points (UnmarshalDocument/Resource/PartialResource/Collection/Identifier/Identifiers, NewRequest with POST/PATCH/GET): (a) ALL byte strings of length <= 4 (thorough 6) over the 13-symbol alphabet { } [ ] \" : , \\ n 1 a space 0xFF; (b) every truncation point of 8 valid base payloads; (c) in every base payload every value position replaced by each of 16 deviations (wrong JSON kinds, nested values, huge number, unknown type, deletion, an 80-byte string of 40 multi-byte runes, a 300-byte string): all single replacements, all double replacements for the resource/identifiers bases (all bases in thorough); (d) nesting ladder 1..20000 at 5 positions; plus ~90 hand-written payloads (duplicate keys, included:[null], unknown/missing types, non-canonical values) and the full 28 kinds x 16 JSON values matrix. plus every history of 4 (thorough 5) AddType/RemoveType/lookup steps over three type names followed by unmarshaling an identifier and a resource of each name. Oracle: no panic; exactly one of (result, error); every returned resource's type is in the schema, every attribute holds exactly the declared Go type (or nil for nullable), to-one string, to-many []string. Non-trivial = a payload accepted by some entry point, or a deviating/hand-written payload",
 		Harnesses: []Harness{
 			{Name: "C05/bytes", Body: c05Bytes, ShardDepth: 2},
 			{Name: "C05/deviations", Body: c05Deviations},
